@@ -27,7 +27,7 @@ def spawn(job, tag, hashseed, outdir):
     if os.path.exists(rf):
         os.remove(rf)
     with open(jf, 'w') as f:
-        json.dump(job, f)
+        json.dump(job, f, default=repr)
     log = open(os.path.join(outdir, tag + '.log'), 'w')
     p = subprocess.Popen([PY, '-W', 'ignore', '-m', 'rv.worker', jf, rf], cwd=VERIF_DIR, env=_env(hashseed),
                          stdout=log, stderr=subprocess.STDOUT)
@@ -58,14 +58,37 @@ def collect(procs, timeout):
 
 
 def run_jobs(jobs, outdir, timeout, parallel=16):
-    """jobs: list of (tag, job, hashseed). runs at most `parallel` at a time."""
-    results = []
+    """jobs: list of (tag, job, hashseed). keeps at most `parallel` workers running; each has `timeout` seconds."""
+    results = {}
     pending = list(jobs)
-    while pending:
-        batch, pending = pending[:parallel], pending[parallel:]
-        procs = [spawn(job, tag, hs, outdir) for tag, job, hs in batch]
-        results += collect(procs, timeout)
-    return results
+    running = []
+    order = [t for t, _, _ in jobs]
+    while pending or running:
+        while pending and len(running) < parallel:
+            tag, job, hs = pending.pop(0)
+            running.append(spawn(job, tag, hs, outdir))
+        time.sleep(0.05)
+        still = []
+        for pi in running:
+            rc = pi['p'].poll()
+            if rc is None and time.time() - pi['t0'] > timeout:
+                pi['p'].kill()
+                pi['p'].wait()
+                pi['timed_out'] = True
+                rc = -9
+            if rc is None:
+                still.append(pi)
+                continue
+            pi['log'].close()
+            res = None
+            if os.path.exists(pi['rf']):
+                try:
+                    res = json.load(open(pi['rf']))
+                except Exception:
+                    res = None
+            results[pi['tag']] = (pi, res)
+        running = still
+    return [results[t] for t in order]
 
 
 def run_check(check, tier, seed, replay_path=None):
@@ -260,7 +283,7 @@ def run_check(check, tier, seed, replay_path=None):
         with open(rp, 'w') as f:
             json.dump({'property': check, 'case': small, 'original_case': v['case'], 'seed': seed,
                        'hashseed': v['hashseed'], 'symptom': sv.get('symptom'), 'detail': sv.get('detail'),
-                       'features': feats, 'sig': sig}, f, indent=1)
+                       'features': feats, 'sig': sig}, f, indent=1, default=repr)
         reports.append((rp, sv, small, feats, merged['viol_counts'].get(sig, 1)))
     unprocessed = max(0, len(by_sig) - len(to_process))
     # ---- pinned witnesses of open known findings
